@@ -229,11 +229,13 @@ def check_case(case):
     claims = out.stop < tol if solver == "FISTA" else out.stop <= tol
     if claims and not viol and solver != "PDCD_WS":
         strat = case["solver"].get("ws_strategy") or "subdiff"
-        if solver in ("GramCD", "GroupProxNewton", "LBFGS", "FISTA"):
+        if solver in ("GramCD", "GroupProxNewton", "LBFGS"):
             strat = "subdiff"
+        if solver == "FISTA":
+            strat = case["solver"].get("opt_strategy") or "subdiff"
         if not (solver == "FISTA" and pen_spec["name"] not in ("L1", "L1_plus_L2")):
             c = c01.certificate(case, out.w, strat)
-            lim = (2. if solver == "FISTA" else 1.) * tol * (1 + 1e-6)
+            lim = tol * (1 + 1e-6)
             exc = c["vec"] - lim - 1e-8 * c["gscale"]
             if (len(exc) and exc.max() > 0) or c["icpt"] > lim + 1e-8 * c["icpt_scale"]:
                 viol.append(Viol(dict(sig, kind="certificate", component="feature-gradient" if (len(exc) and exc.max() > 0) else "intercept-gradient",
